@@ -1290,8 +1290,8 @@ func (r *Replica) applyWALSegmentsV3(ctx context.Context, client ReplicaClientV3
 				return err
 			}
 			expectedIndex++
-		} else if seg.Offset != offset {
-			return fmt.Errorf("missing WAL segment: expected %d/%d, got %d/%d", seg.Index, offset, seg.Index, seg.Offset)
+		} else if seg.Index != expectedIndex-1 || seg.Offset != offset {
+			return fmt.Errorf("missing WAL segment: expected %d/%d, got %d/%d", expectedIndex-1, offset, seg.Index, seg.Offset)
 		}
 		if n, err := r.appendWALSegmentV3(ctx, client, generation, seg, f); err != nil {
 			return fmt.Errorf("write WAL segment %d/%d: %w", seg.Index, seg.Offset, err)
